@@ -140,6 +140,7 @@ where
         }
         set_entropy_seed(seed);
         install_panic_recorder();
+        crate::alloc::reset_peak();
         let wfd = fds[1];
         let stack = limits.stack_bytes;
         let handle = std::thread::Builder::new()
